@@ -15,8 +15,9 @@ import Dashu.Props.GenBitDispatch
 import Dashu.Props.GenNextPow2
 import Dashu.Props.GenIntBits
 import Dashu.Props.GenShiftDispatch
+import Dashu.Props.C09BitLen
 /-! C09: axioms of every theorem of the Tie-A / link theorem modules of the property in ONE file (one Lean start instead of
-    eight): Props/{GenBits, GenIntOps, GenMath, GenBitsSmall, C09Shift, GenShift, GenBitsPrim, GenScans, GenBitsMixed, GenShiftHeap, GenBitsHeap, GenBitOpsHeap, GenReprOnes, GenBitDispatch, GenNextPow2, GenIntBits, GenShiftDispatch}.  The per-module audit
+    eight): Props/{GenBits, GenIntOps, GenMath, GenBitsSmall, C09Shift, GenShift, GenBitsPrim, GenScans, GenBitsMixed, GenShiftHeap, GenBitsHeap, GenBitOpsHeap, GenReprOnes, GenBitDispatch, GenNextPow2, GenIntBits, GenShiftDispatch, C09BitLen}.  The per-module audit
     files stay (other properties use some of them); this file lists the same theorems with fully qualified names. -/
 #print axioms Dashu.Props.GenBits.gen_ibig_bitand
 #print axioms Dashu.Props.GenBits.gen_ibig_bitor
@@ -175,3 +176,10 @@ import Dashu.Props.GenShiftDispatch
 #print axioms Dashu.Props.GenShiftDispatch.gen_shr_dispatch
 #print axioms Dashu.Props.GenBitsHeap.gen_set_bit_small
 #print axioms Dashu.Props.GenBitsHeap.gen_set_bit
+#print axioms Dashu.Props.C09BitLen.gen_ibig_bit_len
+#print axioms Dashu.Props.C09BitLen.sign_bits_above
+#print axioms Dashu.Props.C09BitLen.top_bit_below
+#print axioms Dashu.Props.C09BitLen.gen_ibig_bit_len_sign_bits
+#print axioms Dashu.Props.C09BitLen.specK_meets_bit_len
+#print axioms Dashu.Props.C09BitLen.modelK_meets_bit_len
+#print axioms Dashu.Props.C09BitLen.model_ibig_bit_len
